@@ -492,7 +492,7 @@ def _swap_calls(ctx, f: Func) -> List[ast.Call]:
     return [n for n in walk_local(f.node) if isinstance(n, ast.Call) and call_name(n) == "_swap_temp_with_primary"]
 
 
-@rule("C02.R3", ["C02", "C15"], min_instances=4, design="3.2")
+@rule("C02.R3", ["C02", "C15", "C12"], min_instances=4, design="3.2")
 def remove_commit_protocol(ctx):
     """No-op removals return before any primary mutation; commit returns the number actually removed."""
     f = ctx.prog.func("TinyFlux._remove_helper", "C02.R3")
@@ -519,7 +519,7 @@ def remove_commit_protocol(ctx):
     for s in swaps:
         cl = guard_clauses(guards(s), subst)
         ok = nonempty(cl, local_drop)
-        yield Ob("C02.R3", ["C02", "C15"], f"{f.qual} | swap only when something was removed | {norm(s)}", ok,
+        yield Ob("C02.R3", ["C02", "C15", "C12"], f"{f.qual} | swap only when something was removed | {norm(s)}", ok,
                  "swap is control-dependent on a non-empty removal set" if ok else
                  f"swap can run with an empty removal set (guards {sorted(map(sorted, cl))})", ctx.prog.loc(s))
     for r in resets:
@@ -560,7 +560,7 @@ def remove_commit_protocol(ctx):
                      "return value is not the size of the removal set", ctx.prog.loc(n))
 
 
-@rule("C03.R4", ["C03", "C15", "C11"], min_instances=3, design="3.3")
+@rule("C03.R4", ["C03", "C15", "C11", "C14", "C12"], min_instances=3, design="3.3")
 def update_commit_protocol(ctx):
     """Validation precedes the first temp write; no-op updates return before the swap; the count is returned."""
     f = ctx.prog.func("TinyFlux._update_helper", "C03.R4")
@@ -576,7 +576,7 @@ def update_commit_protocol(ctx):
     for s in swaps:
         cl = guard_clauses(guards(s), subst)
         ok = any(len(c) == 1 and next(iter(c)) == (f"truthy({uc})", True) for c in cl)
-        yield Ob("C03.R4", ["C03", "C15"], f"{f.qual} | swap only when something changed | {norm(s)}", ok,
+        yield Ob("C03.R4", ["C03", "C15", "C12"], f"{f.qual} | swap only when something changed | {norm(s)}", ok,
                  f"swap is control-dependent on {uc} > 0" if ok else
                  f"swap can run although no row changed (guards {sorted(map(sorted, cl))})", ctx.prog.loc(s))
     # validation (the call that builds the updater) dominates every temp append
@@ -586,6 +586,12 @@ def update_commit_protocol(ctx):
         raise AnalysisError("C03.R4", "updater construction or temp appends not found")
     gid = {n.id for n in gens}
     bad = [n for n in tmp if not g.dominated(n.id, lambda x: x.id in gid)]
+    rets_ = [n for n in g.stmt_nodes() if n.kind == "stmt" and isinstance(n.ast, ast.Return)]
+    early = [n for n in rets_ if not g.dominated(n.id, lambda x: x.id in gid)]
+    yield Ob("C03.R4", ["C03", "C14", "C11"], f"{f.qual} | argument validation precedes every return", not early,
+             "no path returns before the update arguments were validated" if not early else
+             f"`{norm(early[0].ast)}` at line {early[0].lineno} can be reached before the update arguments are validated: "
+             f"invalid arguments are silently accepted when that shortcut applies", f.loc())
     yield Ob("C03.R4", ["C03", "C11"], f"{f.qual} | argument validation dominates temp writes", not bad,
              "all static-argument validation happens before the first row is staged" if not bad else
              f"temp write at line {bad[0].lineno} can precede argument validation", f.loc())
